@@ -28,6 +28,7 @@ func runC04(c *Ctx) {
 	c.rule("C04.2", func() { c04SendWindow(c) })
 	c.rule("C04.3", func() { c04ReceiveSide(c) })
 	c.rule("C04.5", func() { c04BytesRead(c) })
+	c.rule("C04.5", func() { c04AbandonInReadLoop(c) })
 	c.rule("C04.6", func() { c04Blocked(c) })
 	c.rule("C04.7", func() { c04WindowUpdates(c) })
 }
